@@ -85,6 +85,9 @@ func (l *patchLoader) LoadFileList(patchList string) (err error) {
 			return fmt.Errorf("load patch %q: %w", path, err)
 		}
 	}
+	if err := scanner.Err(); err != nil {
+		return fmt.Errorf("read: %w", err)
+	}
 	return nil
 }
 
